@@ -17,7 +17,8 @@ EXPLANATION = ("Decided from MIR: (R1) in decode_to_end, inside one loop iterati
                "acquisitions) is acyclic, wait_while holds only its own mutex, and no closure run on DECOMPRESSION_POOL can wait for "
                "another decode or take the cluster cache / cluster reader locks; (R5) inventory of unsafe impls/blocks on the reader path "
                "(informational). Byte equality under every interleaving is not decided."
-               " (R3, rewritten) stated on the decoder's three read methods with every helper of compression.rs inlined: Condvar::wait_while on the published length with predicate `published < bound from the arguments`, the shared slice built with the length read under the lock, indexed within the bound waited for; (R7) evicted clusters stay alive through Arc clones; (R8) = C13-R5.")
+               " (R3, rewritten) stated on the decoder's three read methods with every helper of compression.rs inlined: Condvar::wait_while on the published length with predicate `published < bound from the arguments`, the shared slice built with the length read under the lock, indexed within the bound waited for; (R7) evicted clusters stay alive through Arc clones; (R8) = C13-R5."
+               ' Added later: (R9) the result of OnceLock::set never separates an error exit from the normal one; (R10) with the reader already Plain when the write lock is obtained, build_plain_reader returns without panicking or building a reader again.')
 ASSUMPTIONS = ["std Mutex/Condvar/RwLock semantics; rayon runs spawned closures to completion", "Vec never reallocates while len <= capacity",
                "the call graph over-approximates dynamic dispatch"]
 
